@@ -476,7 +476,19 @@ impl Site {
 
         // --- C05.2: exactly one entry per reachable identity ----------------
         if self.closure_incomplete {
+            // the set of reachable identities is only known from below
             probe("suppressed.entry_count_unknown_after_structural_mismatch");
+            if self.snap.len() < self.tid_to_id.len() {
+                fail(mask, "C05", "entry_count", || {
+                    format!(
+                        "{} event {}: {} entries for at least {} distinct identities reachable from what was registered",
+                        self.name,
+                        e,
+                        self.snap.len(),
+                        self.tid_to_id.len()
+                    )
+                })?;
+            }
         } else if self.snap.len() != self.tid_to_id.len() {
             fail(mask, "C05", "entry_count", || {
                 format!(
@@ -657,6 +669,7 @@ fn all_props_panic(mask: Mask, engine_props: &[&'static str], msg: String) -> Vi
         property: property.to_string(),
         clause: core::panic_clause(&msg),
         detail: format!("library code panicked: {}", msg),
+        case: None,
     }
 }
 
@@ -1050,13 +1063,13 @@ fn execute_inner(scn: &RegScenario, mask: Mask) -> Result<RegResult, Violation> 
         }
         let prefix = PortableRegistry::from(reg).encode();
         let n_at = if cut == 0 { 0 } else { a.sizes[cut - 1] };
-        let expect = PortableRegistry {
-            types: a.snap[..n_at.min(a.snap.len())]
+        let expect = crate::ptype::registry_of(
+            a.snap[..n_at.min(a.snap.len())]
                 .iter()
                 .enumerate()
                 .map(|(i, t)| PortableType::new(i as u32, t.clone()))
                 .collect(),
-        }
+        )
         .encode();
         if prefix != expect {
             fail(mask, "C11", "prefix_replay_differs_from_snapshot", || {
@@ -1069,7 +1082,14 @@ fn execute_inner(scn: &RegScenario, mask: Mask) -> Result<RegResult, Violation> 
     // ---- consumer chain --------------------------------------------------------
     res.published = Some(a.pr.clone());
     let mut cur = a.pr;
+    // the consumer chain concerns the properties about produced registries
+    // and consumer steps; under a check of C02, C05 or C11 alone it would only
+    // add ways for an unrelated failure to end the process
+    let chain_wanted = ["C01", "C07", "C10", "C12", "C14"].iter().any(|p| mask.has(p));
     for (k, step) in scn.chain.iter().enumerate() {
+        if !chain_wanted {
+            break;
+        }
         res.flags |= F_CHAIN;
         // a panic inside a consumer step belongs to the property that speaks
         // about that step; for the others the chain simply ends here
